@@ -676,7 +676,9 @@ class Polygon(Shape2D):
         )
         # Apply translational shift relative to the center of the
         # polygonal face relative to its centroid.
-        form_factor[~zero_q] = -np.sum(
+        # The edge sum is signed by the direction in which the vertices run about the
+        # normal; the form factor of the region does not depend on that direction.
+        form_factor[~zero_q] = -np.sign(self.signed_area) * np.sum(
             f_ns * 1j * np.exp(-1j * midpoints_dot_qs), axis=0
         )
         form_factor *= density
